@@ -529,8 +529,15 @@ func ReplayMain(p Prop, path string) int {
 	return 0
 }
 
+func outDir(kind string) string {
+	if d := os.Getenv("VERIF_OUT"); d != "" {
+		return filepath.Join(d, kind)
+	}
+	return filepath.Join(VerifDir, kind)
+}
+
 func writeReplay(id, tier string, seed int64, v violRec) string {
-	dir := filepath.Join(VerifDir, "replays", id)
+	dir := filepath.Join(outDir("replays"), id)
 	os.MkdirAll(dir, 0o755)
 	name := fmt.Sprintf("%016x.json", h64(v.Viol.Key+"|"+v.ID))
 	path := filepath.Join(dir, name)
@@ -545,7 +552,7 @@ func writeReplay(id, tier string, seed int64, v violRec) string {
 
 // WriteEvidence writes /verif/evidence/<id>.json.
 func WriteEvidence(id string, ev map[string]any) {
-	dir := filepath.Join(VerifDir, "evidence")
+	dir := outDir("evidence")
 	os.MkdirAll(dir, 0o755)
 	b, _ := json.MarshalIndent(ev, "", " ")
 	os.WriteFile(filepath.Join(dir, id+".json"), append(b, '\n'), 0o644)
